@@ -934,6 +934,14 @@ def run_case(case):
             for m, mapping in cands_pre:
                 if atom in mapping.values() and (m, frozenset(mapping.values())) not in truth_keys:
                     rename_conflict = True
+        # any *candidate* placement (not only the ground truth) that renames an anchor which another candidate needs makes
+        # the outcome depend on the order in which equally valid modifications are applied: completeness is undefined
+        for m, mapping in cands_pre:
+            for role, atom in mapping.items():
+                if mods[m]['nodes'][role]['kind'] == 'anchor' and 'atomname' in mods[m]['replace'].get(role, {}):
+                    for m2, mapping2 in cands_pre:
+                        if (m2, mapping2) != (m, mapping) and atom in mapping2.values():
+                            rename_conflict = True
         # harness self check: the ground truth is a set of induced placements
         cand_keys = set((m, tuple(sorted(mapping.items()))) for m, mapping in cands_pre)
         for m, mapping in truth:
@@ -941,6 +949,11 @@ def run_case(case):
                 raise HarnessError('ground-truth placement of %s is not found by the reference matcher' % mods[m]['name'])
         if rename_conflict:
             classes.append('clean-but-renamed-anchor-shared')
+        elif removed and _removal_shape(removed, truth, mods, comps, comp_of_atom, pre_nodes) != 'other':
+            # The statement allows "removed together with an unknown-input warning" for any atom; identification of
+            # these two shapes (added atoms in groups with different anchor residues; an anchor in a residue that is
+            # not bonded to an added atom) is not promised anywhere, so this is counted, not judged (DESIGN.md §7).
+            classes.append('explained-but-removed-with-warning:' + _removal_shape(removed, truth, mods, comps, comp_of_atom, pre_nodes))
         elif removed:
             raise Violation('removed-though-explained:' + _removal_shape(removed, truth, mods, comps, comp_of_atom, pre_nodes),
                             'every flagged atom belongs to an attached instance of a known modification (%s), yet atoms %s were removed: %r'
